@@ -852,10 +852,11 @@ func (e *vfX01Env) ReleaseAll() {
 // Change makes the cluster change keyspace ks (the event is the caller's business).
 func (e *vfX01Env) Change(ks, kind string) int {
 	e.mu.Lock()
-	e.ver[ks]++
-	v := e.ver[ks]
-	e.mu.Unlock()
+	v := e.ver[ks] + 1
+	// logged before the new version can be served: whatever shows it comes later in the trace
 	e.tr.Emit("chg", "k", ks, "v", v, "kind", kind)
+	e.ver[ks] = v
+	e.mu.Unlock()
 	return v
 }
 
@@ -908,6 +909,11 @@ func (e *vfX01Env) PushEvent(body []byte) bool {
 }
 
 func (e *vfX01Env) SetUp(up bool) {
+	// "down" is logged before the hosts are marked down, "up" after they are marked up: a call that fails for want
+	// of a connection always has the down period inside its interval
+	if !up {
+		e.tr.Emit("down")
+	}
 	for _, h := range e.sess.ring.allHosts() {
 		if up {
 			h.setState(NodeUp)
@@ -917,8 +923,6 @@ func (e *vfX01Env) SetUp(up bool) {
 	}
 	if up {
 		e.tr.Emit("up")
-	} else {
-		e.tr.Emit("down")
 	}
 }
 
